@@ -234,11 +234,12 @@ func (s *simplifier) removeNegateTest(x TestExpr) TestExpr {
 			return y
 		case TsNot:
 			s.modified = true
-			return y.X
+			// what is left may itself be a negation to merge
+			return s.removeNegateTest(y.X)
 		}
 	case *BinaryTest:
 		switch y.Op {
-		case TsMatch:
+		case TsMatch, TsMatchShort:
 			y.Op = TsNoMatch
 			s.modified = true
 			return y
